@@ -301,6 +301,39 @@ def run(ctx):
                 ctx.violation("c01.thor", "c01.thor|writefile", "-o content is %s" % show(content)[:200], thor.loc(t2.get("ln")))
     if not found:
         ctx.violation("c01.thor", "c01.thor|writefile", "no writefile(<archivo_salida_json>, ..) call found in thor::main", thor.loc())
+    # the file named with -o holds that JSON and nothing else: created or truncated, and written completely
+    wf = [f for f in prog.fns.values() if f.path == "thor::writefile"]
+    ctx.require(len(wf) == 1, "anchor thor::writefile not found")
+    wf = wf[0]
+    web = ExprBuilder(wf.body)
+    wcalls = [(callee_name(t2) or "", t2) for b, t2 in wf.body.calls()]
+    opened = [n for n, _ in wcalls if n.endswith(("fs::File::create", "fs::write", "fs::OpenOptions::open", "fs::File::options", "fs::File::create_new", "fs::File::open"))]
+    if any(n.endswith(("fs::File::create", "fs::write")) for n in opened) and not any(n.endswith("OpenOptions::open") for n in opened):
+        ctx.ok("c01.thor", "c01.thor|open", "the output file is created/truncated (%s)" % opened[0].split("::", 1)[-1], wf.loc())
+    elif any(n.endswith("OpenOptions::open") for n in opened):
+        def flag(name):
+            for n, t2 in wcalls:
+                if n.endswith("OpenOptions::" + name) and len(t2["args"]) == 2:
+                    v = strip(web.operand(t2["args"][1]))
+                    return v[1] == "true" if v[0] == "k" else None
+            return False
+        tr, ap = flag("truncate"), flag("append")
+        if tr is None or ap is None:
+            raise AnalysisError("thor::writefile: OpenOptions flags are not constants")
+        if tr and not ap:
+            ctx.ok("c01.thor", "c01.thor|open", "the output file is opened with truncate(true)", wf.loc())
+        else:
+            ctx.violation("c01.thor", "c01.thor|open", "the -o file is opened %s: when it already exists with longer content, what follows the new JSON stays in the file, which then "
+                          "is not the model's JSON" % ("in append mode" if ap else "without truncate(true)"), wf.loc())
+    else:
+        raise AnalysisError("thor::writefile: cannot see how the output file is opened (%s)" % [n for n, _ in wcalls][:8])
+    wr = [(n, t2) for n, t2 in wcalls if short_callee(n) in ("write_all", "write", "write_fmt", "write_vectored")]
+    full = [1 for n, t2 in wr if short_callee(n) == "write_all" and len(t2["args"]) == 2 and strip(web.operand(t2["args"][1]))[:2] == ("arg", 2)]
+    if any(n.endswith("fs::write") for n in opened) or (len(wr) == 1 and full):
+        ctx.ok("c01.thor", "c01.thor|write", "the whole content is written once (write_all / fs::write)", wf.loc())
+    else:
+        ctx.violation("c01.thor", "c01.thor|write", "the content is not written by a single write_all(content) (%s): a partial write leaves a truncated document"
+                      % [short_callee(n) for n, _ in wr], wf.loc())
     # same conversion pair as collect_hulc_data
     def convpair(f):
         s = set()
